@@ -11,6 +11,7 @@ import (
 	"crypto/sha256"
 	"encoding/binary"
 	"hash"
+	"math/big"
 	"reflect"
 	"sync"
 	"unsafe"
@@ -238,4 +239,136 @@ func snapshot(x interface{}) digest {
 	var d digest
 	w.h.Sum(d[:0])
 	return d
+}
+
+// ---- scribbling over returned values ------------------------------------------------------------
+//
+// scribble overwrites, in place, everything a caller can reach from a value the library RETURNED
+// to it: every byte of flat slice/array memory and of big.Int limb arrays is inverted (through
+// exported fields, slices, pointers, maps), then struct fields are zeroed. References held by
+// unexported fields are not written through (no caller could), only dropped. A returned value is the caller's to use as it likes (e.g. as the
+// destination of its own arithmetic); if that damages anything the library keeps (a lazily
+// initialised global, a cache, pooled state), later calls return something else.
+
+type scribbler struct {
+	visited map[visitKey]bool
+}
+
+func scribble(vals ...interface{}) {
+	s := &scribbler{visited: map[visitKey]bool{}}
+	for _, v := range vals {
+		if v == nil {
+			continue
+		}
+		s.walk(reflect.ValueOf(v))
+	}
+}
+
+func flip(p unsafe.Pointer, n uintptr) {
+	b := unsafe.Slice((*byte)(p), n)
+	for i := range b {
+		b[i] = ^b[i]
+	}
+}
+
+func (s *scribbler) walk(v reflect.Value) {
+	t := v.Type()
+	if skipType(t) {
+		return
+	}
+	switch t.Kind() {
+	case reflect.Ptr:
+		if v.IsNil() {
+			return
+		}
+		k := visitKey{v.UnsafePointer(), t}
+		if s.visited[k] {
+			return
+		}
+		s.visited[k] = true
+		s.walk(v.Elem())
+	case reflect.Slice:
+		n := v.Len()
+		if v.IsNil() || n == 0 {
+			return
+		}
+		et := t.Elem()
+		k := visitKey{v.UnsafePointer(), t}
+		if s.visited[k] {
+			return
+		}
+		s.visited[k] = true
+		if flat(et) {
+			flip(v.UnsafePointer(), uintptr(n)*et.Size())
+			return
+		}
+		for i := 0; i < n; i++ {
+			s.walk(v.Index(i))
+		}
+	case reflect.Array:
+		if !v.CanAddr() {
+			return // a copy: nothing the library could still see
+		}
+		if flat(t) {
+			flip(unsafe.Pointer(v.UnsafeAddr()), t.Size())
+			return
+		}
+		for i := 0; i < v.Len(); i++ {
+			s.walk(v.Index(i))
+		}
+	case reflect.Struct:
+		if !v.CanAddr() {
+			return
+		}
+		v = addressable(v)
+		if flat(t) {
+			flip(unsafe.Pointer(v.UnsafeAddr()), t.Size())
+			return
+		}
+		if t.PkgPath() == "math/big" && t.Name() == "Int" {
+			// the caller can rewrite the limbs in place with any arithmetic that uses the value as destination
+			if w := v.Addr().Interface().(*big.Int).Bits(); len(w) > 0 {
+				flip(unsafe.Pointer(&w[0]), uintptr(len(w))*unsafe.Sizeof(w[0]))
+			}
+			return
+		}
+		for i := 0; i < t.NumField(); i++ {
+			f := addressable(v.Field(i))
+			if skipType(f.Type()) {
+				continue
+			}
+			// only what a caller can reach: it may write through the references held by exported fields;
+			// unexported fields can at most be dropped (by assigning a zero value to the whole struct)
+			if t.Field(i).IsExported() {
+				s.walk(f)
+			}
+			switch f.Kind() {
+			case reflect.Func, reflect.Chan, reflect.UnsafePointer:
+			default:
+				if !flat(f.Type()) {
+					f.Set(reflect.Zero(f.Type())) // drop the references held by the returned value
+				}
+			}
+		}
+	case reflect.Map:
+		if v.IsNil() {
+			return
+		}
+		it := v.MapRange()
+		for it.Next() {
+			val := it.Value()
+			if val.Kind() == reflect.Ptr || val.Kind() == reflect.Slice || val.Kind() == reflect.Map || val.Kind() == reflect.Interface {
+				s.walk(val)
+			}
+		}
+		v.Clear()
+	case reflect.Interface:
+		if v.IsNil() {
+			return
+		}
+		e := v.Elem()
+		if e.Kind() == reflect.Ptr || e.Kind() == reflect.Slice || e.Kind() == reflect.Map {
+			s.walk(e)
+		}
+	}
 }
